@@ -140,7 +140,10 @@ def run(ctx, res):
               "x: n { id }", "n { ... on U { name } }", "n { ... on U { x: name } ... on Node { x: id } }", "...F", "...F @include(if: $a)",
               "...F @skip(if: $b)", "...G", "...G @skip(if: $a)", "... on Query { x: a }", "... on Query { q { b } }", "... @include(if: $a) { q { b } }",
               "... @skip(if: $b) { x: q { a } }", "a @skip(if: $a)", "x: a @include(if: $b)", "q @include(if: $a) { a }", "q @skip(if: $b) { b }",
-              "__typename", "x: __typename", "q { __typename }", "b(x: 1)", "x: b(x: 2)", "b(s: \"s\")", "a @skip(if: true)", "a @include(if: false)"]
+              "__typename", "x: __typename", "q { __typename }", "b(x: 1)", "x: b(x: 2)", "b(s: \"s\")", "a @skip(if: true)", "a @include(if: false)",
+              # two conditions on one selection (different variables, literal then variable, on spreads and inline fragments)
+              "a @skip(if: $a) @include(if: $b)", "x: a @skip(if: false) @include(if: $b)", "...F @include(if: $b) @skip(if: $a)",
+              "... @skip(if: $a) @include(if: $b) { q { a } }", "q @include(if: true) @skip(if: $b) { b }"]
     nsem = 3000 if ctx.quick else 100000
     for _ in range(nsem):
         body = " ".join(ctx.rng.choice(pieces) for _ in range(1 + ctx.rng.below(5)))
